@@ -15,7 +15,7 @@ open Bee2V.C02 (Bytes leNat natLE zeros Pt Curve powMod fsub stdCtx stdCurve)
 open Bee2V.Gen.C02Params (Std)
 open Bee2V.Gen.C04Err
 
-def bc := Bee2V.C01.beltCipher
+abbrev bc := Bee2V.C01.beltCipher
 
 /-- beltKRPStart(K, 32, 1^96) + beltKRPStepG(32, <i> ‖ 0…) -/
 def beltKrp (K : Bytes) (i : Nat) : Bytes :=
